@@ -24,7 +24,11 @@ func (c *PointerCodec) New(r *ReadBuf) unsafe.Pointer {
 }
 
 func (c *PointerCodec) Omit(p unsafe.Pointer) bool {
-	return *(*unsafe.Pointer)(p) == nil
+	// A pointer is written as null when it is nil, and also when what it points
+	// to is itself written as null (a nil inner pointer, an invalid null.*
+	// wrapper): Write would emit nothing for those.
+	pp := *(*unsafe.Pointer)(p)
+	return pp == nil || c.Codec.Omit(pp)
 }
 
 func (c *PointerCodec) Write(w *WriteBuf, p unsafe.Pointer) {
